@@ -44,6 +44,11 @@ def obligations(tier):
     obls.append(CH("types_declared_with_extension_name", H, "extension_name_types", t, mode="E1s", functions=["stix2.custom._custom_object_builder", "stix2.custom._custom_observable_builder"] + F[:2],
                    stubs=[REG], bounds="custom object / observable declared with extension_name x other extensions (none, registered, unregistered, both) x own extension "
                                        "listed or not x constructor / parse dict / parse text: all extensions kept, own one present, strict round trip"))
+    obls.append(CH("refused_registration_leaves_nothing", H, "registration_failures", t, mode="E1s", finding="C19-extension-id-not-uuid", functions=["stix2.v21.sdo.CustomObject", "stix2.v21.observables.CustomObservable",
+                   "stix2.registration._register_object", "stix2.registration._register_observable", "stix2.registration._register_extension"], stubs=[REG],
+                   bounds="21 (type name, extension_name) pairs -- names taken in the same or the other 2.1 category, malformed type names, extension names taken / not "
+                          "extension-definition ids / malformed -- x (new SDO, new SRO, new observable): refused exactly when a name is taken or malformed, "
+                          "the registry afterwards identical to before; otherwise exactly the type and its extension added and the type parses to the class"))
     obls.append(CH("registration_scopes_references", H, "version_scoped_references", t, mode="E1s", functions=["stix2.properties.ReferenceProperty.clean", "stix2.utils.is_object"] + F[:1],
                    stubs=[REG], bounds="a custom object type registered for 2.0 or 2.1 only x referenced from a 2.0 / 2.1 Relationship or Sighting x allow_custom"))
     obls.append(CH("marking_definition_uses_registered_class", H, "marking_definition_forms", t, mode="E1s", functions=["stix2.v21.common.MarkingDefinition.__init__",
@@ -52,6 +57,10 @@ def obligations(tier):
                           "class, built-in instances, JSON text, junk): refused, or an instance of the class registered for the type that round trips"))
     obls.append(JOB("type_name_rules", "props.j_regex", "job_type_names", 120, engine="re2z3", functions=F[10:11],
                     bounds="all strings of length 3..250 (regex inclusion: accepted => obeys the naming rule), both spec versions"))
+    obls.append(JOB("name_checks_terminate", "props.j_regex", "job_regex_ambiguity", 300, engine="re2z3", functions=["stix2.properties._validate_type", "stix2.properties.TYPE_21_REGEX"],
+                    bounds="every compiled pattern the library keeps at module level (26, incl. the per-algorithm hash table): for each unbounded repetition whose body repeats, "
+                           "no text of length <= 12 is both one round and several rounds of the body (z3 regex intersection; the condition under which a backtracking matcher "
+                           "takes exponential time); a witness is replayed by matching its 26-fold repetition in a fresh interpreter with a 5 s limit"))
     obls.append(JOB("property_name_rules_21", "props.j_regex", "job_prop_names", 120, engine="re2z3", functions=F[4:5], finding="C19-propname-chars",
                     bounds="all strings (regex inclusion: accepted => obeys the naming rule)"))
     return obls
